@@ -1188,3 +1188,4 @@ MANIFEST = {
                  "differential correspondence + reference tests for the correlated Gaussian",
 }
 MANIFEST["note"] += " " + py2lean.manifest_note("kernels")
+MANIFEST["note"] += ' Known finding replayed on every run (common.known_probe, exact rational oracle): the uniform kernel forms the box edge mu - width/2 before subtracting, so a box narrower than about 1e-7 of its birth coordinate is shifted by up to half an ulp of mu (DESIGN 10.13).'
